@@ -15,7 +15,7 @@ ID = "C20"
 LEVEL = "fault_enumeration"
 BUDGET = {"quick": (2500, 35), "thorough": (300_000, 540)}
 RULE = ("plugin sets of 1-5 custom plugins (kinds from {resource, decorator, logger, metric, span}; order in {int, None, "
-        "equal, negative, raising}; active in {true, false, raising}; constructor raising; unimportable) x PythonPlugin "
+        "equal, negative, raising}; active in {true, false, raising}; switched off/on by the PLUGIN_<NAME> setting written as 'false'/'no'/'0'/False/0/''/'true'; constructor raising; unimportable) x PythonPlugin "
         "on/off x the index j of the plugin callback invocation that raises (thorough: every j of every generated set "
         "= enumeration of single fault placements; quick: 3 sampled j per set); non-trivial = a "
         "run in which the injected callback fault actually fired; distinct = distinct (plugin set, fault placement)")
@@ -49,6 +49,9 @@ def gen_set(r):
         sp = {"name": "Cp%d" % i, "kinds": kinds, "order": r.choice((0, 0, 1, 5, -3, None, "raise")),
               "active": r.choice((True, True, True, True, False, "raise")), "ctor_raise": r.random() < 0.08,
               "import_ok": r.random() > 0.08}
+        if sp["active"] is True and r.random() < 0.3:
+            # switched off (or explicitly on) through the PLUGIN_<NAME> setting, in any of the forms a user may write
+            sp["switch"] = r.choice(("false", "False", "no", "0", False, 0, "", "true", "True", "yes"))
         specs.append(sp)
     return specs
 
@@ -85,6 +88,8 @@ def _expected_order(specs, python_plugin):
     for sp in specs:
         if not sp["import_ok"] or sp["ctor_raise"] or sp["active"] is not True:
             continue
+        if "switch" in sp and str(sp["switch"]).lower() not in ("true", "yes", "t", "1", "y"):
+            continue        # switched off by configuration
         o = sp["order"]
         items.append((sp["name"], o if isinstance(o, int) else 0))
     return [n for n, _ in sorted(items, key=lambda x: x[1])]
@@ -113,7 +118,8 @@ def execute(s, ch):
                 if sp["active"] is not True and sp["active"] != "raise":
                     d["active"] = sp["active"]
                 plugs.append(d)
-            w = world.World(k, plugins=plugs, python_plugin=s["python_plugin"])
+            switches = {("PLUGIN_%s" % sp["name"]).upper(): sp["switch"] for sp in s["specs"] if "switch" in sp}
+            w = world.World(k, cfg=switches, plugins=plugs, python_plugin=s["python_plugin"])
             names = list(w.custom.get("PLUGINS", []))
             for i, sp in enumerate(s["specs"]):
                 if not sp["import_ok"]:
